@@ -6,6 +6,10 @@ theorem dg_ne (c : Char) (h : isDigit c = true) :
     c ≠ '-' ∧ c ≠ ' ' ∧ c ≠ '(' ∧ c ≠ ':' ∧ c ≠ '\t' ∧ c ≠ '\n' ∧ c ≠ '\r' ∧ c ≠ Char.ofNat 11 ∧ c ≠ Char.ofNat 12 := by
   refine ⟨?_, ?_, ?_, ?_, ?_, ?_, ?_, ?_, ?_⟩ <;> (intro e; subst e; exact absurd h (by decide))
 
+theorem dg_ne_sep (c : Char) (h : isDigit c = true) :
+    c ≠ Char.ofNat 28 ∧ c ≠ Char.ofNat 29 ∧ c ≠ Char.ofNat 30 ∧ c ≠ Char.ofNat 31 := by
+  refine ⟨?_, ?_, ?_, ?_⟩ <;> (intro e; subst e; exact absurd h (by decide))
+
 theorem nd1 : natDigits 1 = ['1'] := rfl
 theorem nd2 : natDigits 2 = ['2'] := rfl
 theorem nd3 : natDigits 3 = ['3'] := rfl
@@ -137,6 +141,7 @@ theorem parse_time (ds : List Char) (a b y1 y2 y3 y4 c1 c2 c3 c4 c5 c6 : Char) (
   obtain ⟨na, _⟩ := dg_ne a ha
   obtain ⟨nb, _⟩ := dg_ne b hb
   obtain ⟨_, q1, q2, q3, q4, q5, q6, q7, q8⟩ := dg_ne c1 g1
+  obtain ⟨q9, q10, q11, q12⟩ := dg_ne_sep c1 g1
   have hm : mo = 1 ∨ mo = 2 ∨ mo = 3 ∨ mo = 4 ∨ mo = 5 ∨ mo = 6 ∨ mo = 7 ∨ mo = 8 ∨ mo = 9 ∨ mo = 10 ∨ mo = 11 ∨ mo = 12 := by omega
   rcases hds with rfl | rfl <;> rcases hm with rfl | rfl | rfl | rfl | rfl | rfl | rfl | rfl | rfl | rfl | rfl | rfl <;>
     date_simp
